@@ -344,18 +344,18 @@ class World(object):
         if t == 'PUBLISH':
             r = self._req_by_tag(p['topic'], 't')
             if r is not None:
-                r.tx.append((self.step, conn.idx, p['dup'], p['msgId']))
+                r.tx.append((self.step, conn.idx, p['dup'], p['msgId'], p['raw'], self.clock.rightNow))
         elif t in ('SUBSCRIBE', 'UNSUBSCRIBE'):
             tp = p['topics'][0] if p['topics'] else None
             if t == 'SUBSCRIBE' and tp is not None:
                 tp = tp[0]
             r = self._req_by_tag(tp, 's' if t == 'SUBSCRIBE' else 'u') if tp else None
             if r is not None:
-                r.tx.append((self.step, conn.idx, p['dup'], p['msgId']))
+                r.tx.append((self.step, conn.idx, p['dup'], p['msgId'], p['raw'], self.clock.rightNow))
         elif t == 'PUBREL':
             for q in reversed(self.reqs):
                 if q.kind == 'pub' and q.addr == conn.addr and q.msgId == p['msgId'] and q.qos == 2:
-                    q.rel_tx.append((self.step, conn.idx, p['dup']))
+                    q.rel_tx.append((self.step, conn.idx, p['dup'], p['msgId'], p['raw'], self.clock.rightNow))
                     r = q
                     break
         elif t == 'DISCONNECT':
@@ -579,8 +579,8 @@ class World(object):
 
     def _note_ack(self, conn, name, mid):
         for q in self.reqs:
-            if q.addr == conn.addr and q.msgId == mid and q.pending and q.kind in ('pub', 'sub', 'unsub'):
-                q.acks.append((self.step, name))
+            if q.addr == conn.addr and q.msgId == mid and q.pending and q.kind in ('pub', 'sub', 'unsub') and q.tx:
+                q.acks.append((self.step, name))       # acks for an id whose packet was never sent are not acks of it
 
     def ev_connack(self, a, rcode=0, sp=False):
         c = self.conn(a)
